@@ -1057,6 +1057,20 @@ func checkWaiterLifetime(c *Ctx, funcs []*ssa.Function, inserter *ssa.Function) 
 			deleters[w.Fn] = true
 		}
 	}
+	// nobody empties or replaces the table of a live connection object: a reply the reader has already read finds no
+	// waiter when a writer's close ran in between (round 12: CloseWithErr cleared the table "to drop references")
+	for _, w := range p.whoWrites().byField[T+"TraditionalDnsConn.queue"] {
+		switch w.Kind {
+		case "clear":
+			c.fail("table-never-emptied@"+funcName(w.Fn), instrPos(w.Instr), "the waiter table is cleared: the reader, holding a reply it has already read, finds no waiter and drops it (the exchange then returns its write error / the close error although the reply arrived in time)")
+		case "store":
+			if _, isMake := w.Val.(*ssa.MakeMap); isMake && strings.HasPrefix(w.Fn.Name(), "New") {
+				c.ok("table-never-emptied@"+funcName(w.Fn), instrPos(w.Instr), "the table is created by the constructor")
+			} else {
+				c.fail("table-never-emptied@"+funcName(w.Fn), instrPos(w.Instr), "the waiter table is replaced outside the constructor: registered waiters are lost, replies that arrive in time are dropped")
+			}
+		}
+	}
 	// what a (non-taking) remover removes: its delete is unconditional, or happens exactly when the table still holds
 	// the channel handed over for that id — the entry of the calling exchange itself (D13)
 	for d := range deleters {
